@@ -202,7 +202,7 @@ func (e *Exec) callTo(t *TypeEntry, obj interface{}, tf *types.Object) (res J) {
 	tfx.TakeHookLog()
 	defer func() {
 		if r := recover(); r != nil {
-			res = J{"panic": classifyPanic(r), "hooks": hooks()}
+			res = J{"panic": classifyPanic(r)}
 		}
 	}()
 	d := t.To(e.ctx, obj, tf)
@@ -217,12 +217,12 @@ func (e *Exec) callFrom(t *TypeEntry, tf types.Object, obj interface{}) (res J) 
 	tfx.TakeHookLog()
 	defer func() {
 		if r := recover(); r != nil {
-			res = J{"panic": classifyPanic(r), "hooks": hooks()}
+			res = J{"panic": classifyPanic(r)}
 		}
 	}()
 	d := t.From(e.ctx, tf, obj)
 	res["diags"] = encDiags(d)
-	res["obj"] = EncodeGo(reflect.ValueOf(obj).Elem())
+	res["obj"] = EncodeGoCanon(reflect.ValueOf(obj).Elem())
 	res["hooks"] = hooks()
 	return res
 }
